@@ -904,6 +904,44 @@ pub mod lrufx {
             nodes[idx as usize].stamp += 1;
             Some(nodes[idx as usize].value)
         }
+        fn evict_lru(&self, index: &mut HashMap<u32, u32>) {
+            let victim = self.list.order.write().unwrap().pop();
+            if let Some(v) = victim {
+                index.retain(|_, i| *i != v);
+            }
+        }
+        pub fn ok_put(&self, key: u32, value: u64) -> Option<u64> {
+            let mut index = self.hash_map.write().ok()?;
+            if let Some(&idx) = index.get(&key) {
+                let mut nodes = self.nodes.write().ok()?;
+                let old = std::mem::replace(&mut nodes[idx as usize].value, value);
+                self.list.move_to_head(&mut nodes, idx);
+                return Some(old);
+            }
+            if index.len() >= 2 {
+                self.evict_lru(&mut index);
+            }
+            let mut nodes = self.nodes.write().ok()?;
+            nodes.push(Node { value, stamp: 0 });
+            index.insert(key, (nodes.len() - 1) as u32);
+            None
+        }
+        pub fn bad_put(&self, key: u32, value: u64) -> Option<u64> {
+            let mut index = self.hash_map.write().ok()?;
+            if index.len() >= 2 {
+                self.evict_lru(&mut index);
+            }
+            if let Some(&idx) = index.get(&key) {
+                let mut nodes = self.nodes.write().ok()?;
+                let old = std::mem::replace(&mut nodes[idx as usize].value, value);
+                self.list.move_to_head(&mut nodes, idx);
+                return Some(old);
+            }
+            let mut nodes = self.nodes.write().ok()?;
+            nodes.push(Node { value, stamp: 0 });
+            index.insert(key, (nodes.len() - 1) as u32);
+            None
+        }
         pub fn bad_get_unlocked(&self, key: u32) -> Option<u64> {
             let idx = {
                 let index = self.hash_map.read().ok()?;
@@ -1244,6 +1282,103 @@ pub mod region {
             let addr = ptr as usize;
             addr.checked_sub(base).and_then(|o| u32::try_from(o).ok()).ok_or(ZiporaError("outside"))
         }
+    }
+}
+
+// ---------------------------------------------------------------- R-DELEGATE
+pub mod delegate {
+    use std::collections::HashMap;
+    pub trait BlobStore {
+        fn get(&self, id: u32) -> Option<Vec<u8>>;
+        fn contains(&self, id: u32) -> bool;
+        fn size(&self, id: u32) -> Option<usize>;
+    }
+    pub struct Mem {
+        pub data: HashMap<u32, Vec<u8>>,
+    }
+    impl BlobStore for Mem {
+        fn get(&self, id: u32) -> Option<Vec<u8>> {
+            self.data.get(&id).cloned()
+        }
+        fn contains(&self, id: u32) -> bool {
+            self.data.contains_key(&id)
+        }
+        fn size(&self, id: u32) -> Option<usize> {
+            self.data.get(&id).map(|v| v.len())
+        }
+    }
+    pub struct OkWrap {
+        pub inner: Mem,
+        pub meta: HashMap<u32, usize>,
+    }
+    impl BlobStore for OkWrap {
+        fn get(&self, id: u32) -> Option<Vec<u8>> {
+            self.inner.get(id)
+        }
+        fn contains(&self, id: u32) -> bool {
+            self.inner.contains(id)
+        }
+        fn size(&self, id: u32) -> Option<usize> {
+            self.inner.size(id)
+        }
+    }
+    pub struct BadWrap {
+        pub inner: Mem,
+        pub meta: HashMap<u32, usize>,
+    }
+    impl BlobStore for BadWrap {
+        fn get(&self, id: u32) -> Option<Vec<u8>> {
+            self.inner.get(id)
+        }
+        fn contains(&self, id: u32) -> bool {
+            self.meta.contains_key(&id)
+        }
+        fn size(&self, id: u32) -> Option<usize> {
+            self.meta.get(&id).copied()
+        }
+    }
+}
+
+// ---------------------------------------------------------------- R-FLOW.serde
+pub mod serdefx {
+    pub trait SeqAccess {
+        fn next_element(&mut self) -> Option<u64>;
+    }
+    pub struct OkStoreBlobStore {
+        pub count: u64,
+        pub next_id: u64,
+    }
+    pub struct BadStoreBlobStore {
+        pub count: u64,
+        pub next_id: u64,
+    }
+    pub fn ok_visit_seq<A: SeqAccess>(mut seq: A) -> Option<OkStoreBlobStore> {
+        let count = seq.next_element()?;
+        let next_id = seq.next_element()?;
+        Some(OkStoreBlobStore { count, next_id })
+    }
+    fn initial_next_id() -> u64 {
+        1
+    }
+    pub fn bad_visit_seq<A: SeqAccess>(mut seq: A) -> Option<BadStoreBlobStore> {
+        let count = seq.next_element()?;
+        let next_id = initial_next_id();
+        Some(BadStoreBlobStore { count, next_id })
+    }
+}
+
+// ---------------------------------------------------------------- R-RANGE.dep
+pub mod rangedep {
+    pub fn ok_range(current: usize, size: usize, align: usize, cap: usize) -> Option<(usize, usize)> {
+        let start = current.checked_add(align - 1)? & !(align - 1);
+        let end = start.checked_add(size)?;
+        (end <= cap).then_some((start, end))
+    }
+    pub fn bad_range(current: usize, size: usize, align: usize, cap: usize) -> Option<(usize, usize)> {
+        let pad = current.wrapping_neg() & (align - 1);
+        let start = current.checked_add(pad)?;
+        let end = current.checked_add(size)?;
+        (start <= cap && end <= cap).then_some((start, end))
     }
 }
 
